@@ -208,6 +208,13 @@ DoUnregF(w, f)    == [w EXCEPT !.regF = Drop(@, {f})]
 PreReset(w) == ~Locked(w)
 DoReset(w)  == NewWorld(w.rel)
 
+\* Unsafe.DumpEntities + Unsafe.LoadEntities into a fresh or reset world, which then replaces the world (C17): the
+\* same handles are alive / dead, entities have no components, nothing is registered; the next creations return
+\* what they would have returned in the source world (layer B: the free list travels with the dump).
+PreLoad(w) == ~Locked(w)
+DoLoad(w)  == [NewWorld(w.rel) EXCEPT !.ent = [h \in DOMAIN w.ent |-> [c |-> {}, v |-> EmptyFn, t |-> EmptyFn]],
+                                      !.issued = w.issued]
+
 (***************************************************************************)
 (* Observers (C08).  o = [ev, obs, with, without : sets; excl : BOOLEAN].  *)
 (* Fires is transcribed from the documentation (docs/content/events):      *)
